@@ -100,7 +100,10 @@ func TestGovcBoundedC18Histories(t *testing.T) {
 	rng := rand.New(rand.NewSource(seed))
 	evals, steps := 0, 0
 	for h := 0; h < histories; h++ {
-		g := &gxGen{rng: rng, nGroup: rng.Intn(3)}
+		// every other history over a layered set (imports point at earlier modules only), loaded in
+		// that order: every intermediate run is a successful one, and later loads build on it
+		layered := h%2 == 1
+		g := &gxGen{rng: rng, nGroup: rng.Intn(3), layered: layered}
 		g.mkModules()
 		for _, m := range g.mods {
 			g.topNodes(m)
@@ -115,7 +118,13 @@ func TestGovcBoundedC18Histories(t *testing.T) {
 			m.stmt.add(gs("identity", fmt.Sprintf("base%d", i)), gs("identity", fmt.Sprintf("der%d", i), gs("base", fmt.Sprintf("base%d", i))))
 			for _, p := range impPrefixes(m) {
 				o := m.imports[p]
-				m.stmt.add(gs("identity", fmt.Sprintf("x%d%s", i, o.name), gs("base", p+":base"+o.name[1:])))
+				if rng.Intn(2) == 0 {
+					m.stmt.add(gs("identity", fmt.Sprintf("x%d%s", i, o.name), gs("base", p+":base"+o.name[1:])))
+				}
+				// ... and one two steps below the other module's base: a module loaded later
+				// lengthens a chain whose upper part was closed by an earlier run
+				m.stmt.add(gs("identity", fmt.Sprintf("y%d%s", i, o.name), gs("base", p+":der"+o.name[1:])))
+				m.stmt.add(gs("identity", fmt.Sprintf("z%d%s", i, o.name), gs("base", fmt.Sprintf("y%d%s", i, o.name))))
 			}
 			m.stmt.add(gs("leaf", fmt.Sprintf("idref%d", i), gs("type", "identityref", gs("base", fmt.Sprintf("base%d", i)))))
 			if rng.Intn(6) == 0 {
@@ -161,6 +170,20 @@ func TestGovcBoundedC18Histories(t *testing.T) {
 			return govcRender(fresh, fresh.Process())
 		}
 		order := rng.Perm(len(good))
+		if layered {
+			// submodules first (an include must be resolvable), then the modules as made
+			order = order[:0]
+			for i, m := range g.mods {
+				if m.belongs != nil {
+					order = append(order, i)
+				}
+			}
+			for i, m := range g.mods {
+				if m.belongs == nil {
+					order = append(order, i)
+				}
+			}
+		}
 		next := 0
 		var trace []string
 		for ops := 0; ops < 14 && (next < len(good) || ops < 6); ops++ {
@@ -186,9 +209,13 @@ func TestGovcBoundedC18Histories(t *testing.T) {
 				if !strings.HasPrefix(dupl, "module") {
 					continue
 				}
-				if rng.Intn(2) == 0 {
+				switch rng.Intn(3) {
+				case 0:
 					// behind a module that is fine: nothing of the text may stay, the fine module included
 					dupl = fmt.Sprintf("module extra%d { namespace \"urn:x%d\"; prefix x; typedef xt { type string; } leaf xl { type xt; } }\n", steps, steps) + dupl
+				case 1:
+					// behind two revisions of one fine module (both take the bare name in turn)
+					dupl = fmt.Sprintf("module extra%d { namespace \"urn:x%d\"; prefix x; revision 2020-01-01; leaf xl { type string; } }\nmodule extra%d { namespace \"urn:x%d\"; prefix x; revision 2021-01-01; leaf xl { type string; } leaf xm { type string; } }\n", steps, steps, steps, steps) + dupl
 				}
 				if err := ms.Parse(dupl, "dup.yang"); err == nil {
 					fmt.Printf("GOVC-FAIL name=c18-histories history %d: a second module of a loaded name is accepted\n", h)
